@@ -24,13 +24,16 @@ func main() {
 	r.Rule("layer 1: a case is a multiset of 1-12 shard updates for 1-3 shards drawn from a Raft-consistent history (one leader per term, one membership per config-change index; " +
 		"'no leader' updates with old and new terms; duplicates); delivered in EVERY permutation when it has <= 6 updates (each permutation once one update per call and once in random groups with " +
 		"re-deliveries), in 40 seeded permutations otherwise, and 9 times through 2- and 3-view gossip scripts (direct updates, node-local Raft info picked up by LocalState, exchanges in random " +
-		"order, delayed payloads); additionally every sequence of length <= L over a 12-letter single-shard alphabet. A multiset is non-trivial when one shard has >= 2 terms, a no-leader update " +
-		"carrying that shard's highest term, and a duplicate; distinct by hash of the sorted multiset. Layer 2: 3-node cluster, leader transfers, every ResponseHeader monitored per (observer, node, shard)")
+		"order, delayed payloads); additionally every sequence of length <= L over a 12-letter single-shard alphabet. A multiset is non-trivial when one shard has >= 2 terms, an update naming a leader and a no-leader update " +
+		"carrying that shard's highest term, and the multiset contains a duplicate; distinct by hash of the sorted multiset. Layer 2: 3-node cluster, leader transfers, every ResponseHeader monitored per (observer, node, shard)")
 	r.Assume("multisets are Raft-consistent: two updates with the same term never name different leaders; two updates with the same config-change index carry the same replicas; a named leader has term >= 1; config-change index 0 means 'no membership known yet' (dragonboat's pending ShardInfo)",
 		"replicas compare by content (nil and empty are the same membership)",
-		"live layer: convergence after the last transfer is awaited with a 30 s watchdog; its expiry is inconclusive, not a violation",
+		"live layer: after each batch of transfers, unassisted convergence of the headers to Raft's (term, leader) is awaited with a 3 s watchdog; its expiry is counted as inconclusive, never as a violation; the view is then refreshed explicitly (Cluster.Notify, the same merge LocalState performs on every memberlist push/pull) and must name Raft's leader afterwards - that part is decided without a clock",
 		"race reports are deciding only when a frame of storage/cluster (view, delegate) or Engine.getHeader/clusterInfo is on one of the two access stacks; other reports are listed as notes")
 	r.Exhaustive(false)
+	if *concChild != "" {
+		concChildMain(r.Seed)
+	}
 	if r.Replay != "" {
 		replay(r)
 		r.Finish()
@@ -40,7 +43,7 @@ func main() {
 	t0 := time.Now()
 	lap := func(name string) { phases[name] = time.Since(t0).Seconds(); t0 = time.Now() }
 	// ---- layer 1: random multisets -----------------------------------------------------------
-	nCases := r.Pick(4000, 40000)
+	nCases := r.Pick(4000, 30000)
 	only := os.Getenv("C19_ONLY") // diagnostic: "live" skips layer 1 (the coverage floors then fail the run)
 	if only == "live" {
 		nCases = 0
@@ -86,15 +89,13 @@ func main() {
 	})
 
 	// ---- layer 1: concurrent use under the race detector -----------------------------------------
-	for i := 0; i < r.Pick(3, 20); i++ {
-		runConcurrent(r, r.Seed*5_000_011+int64(i))
-	}
+	runConcurrentInChild(r, r.Pick(3, 20), 0)
 	r.Extra("race_detector", raceOn)
 	collectRaces(r, "concurrent update/copy/shardInfo/LocalState/MergeRemoteState on one view")
 
 	lap("concurrent")
 	// ---- layer 2: live cluster ----------------------------------------------------------------------
-	liveRuns, episodes, transfers := r.Pick(1, 6), r.Pick(4, 12), r.Pick(6, 10)
+	liveRuns, episodes, transfers := r.Pick(1, 5), r.Pick(4, 10), r.Pick(6, 8)
 	for i := 0; i < liveRuns; i++ {
 		runLive(r, r.Seed*9_000_011+int64(i), episodes, transfers)
 	}
@@ -104,14 +105,14 @@ func main() {
 
 	r.FloorNontrivial(int64(r.Pick(300, 3000)))
 	r.FloorCount("deliveries", int64(r.Pick(150_000, 1_800_000)))
-	r.FloorCount("multisets_delivered_in_every_permutation", int64(r.Pick(2000, 20000)))
+	r.FloorCount("multisets_delivered_in_every_permutation", int64(r.Pick(2000, 15000)))
 	r.FloorCount("gossip_exchanges", int64(r.Pick(50_000, 500_000)))
 	r.FloorCount("small_scope_sequences", int64(r.Pick(22_620, 271_452)))
 	r.FloorCount("concurrent_rounds", int64(r.Pick(3, 20)))
-	r.FloorCount("live_episodes_converged", int64(r.Pick(2, 30)))
-	r.FloorCount("live_headers_observed", int64(r.Pick(2000, 20000)))
-	r.FloorCount("live_transfers_completed", int64(r.Pick(10, 200)))
-	r.FloorDistinct("live_table_shard_terms_in_headers", int64(r.Pick(8, 150)))
+	r.FloorCount("live_episodes_settled", int64(r.Pick(3, 35)))
+	r.FloorCount("live_headers_observed", int64(r.Pick(1000, 10000)))
+	r.FloorCount("live_transfers_completed", int64(r.Pick(10, 150)))
+	r.FloorDistinct("live_table_shard_terms_in_headers", int64(r.Pick(8, 120)))
 	r.Finish()
 }
 
@@ -137,17 +138,21 @@ func replay(r *ev.Run) {
 	case probe.Layer == 1 && probe.Kind == "concurrent":
 		var w witnessConc
 		_, _ = r.ReadReplay(&w)
-		for i := 0; i < 20 && r.Violations() == 0; i++ {
-			runConcurrent(r, w.CaseSeed)
+		for i := 0; i < 10 && r.Violations() == 0; i++ {
+			runConcurrentInChild(r, 3, w.CaseSeed)
+			collectRaces(r, "replay")
 		}
-		collectRaces(r, "replay")
 	case probe.Layer == 2:
 		var w witnessLive
 		_, _ = r.ReadReplay(&w)
 		replayLive(r, w)
 	default: // race report: schedule dependent, re-run the concurrent workload
-		for i := 0; i < 20 && r.Violations() == 0; i++ {
-			runConcurrent(r, r.Seed*5_000_011+int64(i))
+		var w struct {
+			CaseSeed int64 `json:"case_seed"`
+		}
+		_, _ = r.ReadReplay(&w)
+		for i := 0; i < 10 && r.Violations() == 0; i++ {
+			runConcurrentInChild(r, 3, w.CaseSeed)
 			collectRaces(r, "replay")
 		}
 	}
